@@ -274,6 +274,10 @@ def stop_stop(v, d, drv, seed, tier="quick"):
     v.cov["plotstop_pinned_close_rule_refuted"] = bool(ma["violated"])
     if not ma["violated"]:
         raise vlib.Machinery("PlotStop.tla with CloseRule=always no longer shows the double close")
+    mg = vlib.tlc_mc(d, "PlotStop.tla", "PlotStop_flagfirst.cfg", timeout=300)
+    v.cov["plotstop_pinned_start_rule_refuted"] = bool(mg["violated"])
+    if not mg["violated"]:
+        raise vlib.Machinery("PlotStop.tla with StartRule=flagfirst no longer shows the close of a channel that does not exist yet")
     if tier == "thorough":
         # unbounded in the number of callers: the TLA+ proof system discharges NoPanic for the repaired rule
         import subprocess, shutil
